@@ -51,3 +51,57 @@ func Unfold(segs [][]byte, maxDepth int, cap int) (visits int, cyclic bool) {
 	rec(0, 0, 0)
 	return visits, cyclic
 }
+
+// UnfoldCost is the upper bound used by C02(d): the sum of the spec'd
+// charges (ReadHi) of all objects in the pointer graph unfolded from the
+// root to maxDepth dereference levels (every dereference costs one level;
+// element projection is not counted, which only makes the bound larger).
+// capped reports that more than capVisits objects were met (bound unusable).
+func UnfoldCost(segs [][]byte, maxDepth int, capVisits int) (cost uint64, visits int, cyclic, capped bool) {
+	type key struct{ seg, word int }
+	onPath := map[key]bool{}
+	var rec func(seg, word, depth int)
+	rec = func(seg, word, depth int) {
+		if capped || depth >= maxDepth {
+			return
+		}
+		o := Resolve(segs, seg, word)
+		if o.Kind != KStruct && o.Kind != KList {
+			return
+		}
+		visits++
+		if visits > capVisits {
+			capped = true
+			return
+		}
+		cost += o.ReadHi
+		k := key{seg, word}
+		if onPath[k] {
+			cyclic = true
+		}
+		was := onPath[k]
+		onPath[k] = true
+		switch {
+		case o.Kind == KStruct:
+			for i := 0; i < o.PC; i++ {
+				s, w := o.PtrSlot(i)
+				rec(s, w, depth+1)
+			}
+		case o.ET == 6:
+			for i := int64(0); i < o.N && !capped; i++ {
+				rec(o.Seg, o.Off+int(i), depth+1)
+			}
+		case o.ET == 7 && o.PC > 0:
+			for i := int64(0); i < o.N && !capped; i++ {
+				e := o.Elem(int(i))
+				for j := 0; j < e.PC; j++ {
+					s, w := e.PtrSlot(j)
+					rec(s, w, depth+1)
+				}
+			}
+		}
+		onPath[k] = was
+	}
+	rec(0, 0, 0)
+	return
+}
